@@ -1,9 +1,13 @@
-import Votca.Lemmas.C16Comp
+import Votca.Lemmas.C16Iso
+import Mathlib.Data.String.Basic
 /-! # C16 — breadth-first distance labelling assigns every reachable vertex its shortest-path hop count
 
 About `Votca/Model/C16.lean`, for every graph and every order of the adjacency lists.  Termination on finite graphs (`bfs_terminates`), the decomposition into
-components (`components_partition`) and single-network detection (`single_network_iff`) are proved below.  Label-independence of the structure id and
-reduce/expand losslessness are NOT proved (tied by exhaustive correspondence only — see DESIGN.md, C16: partial). -/
+components (`components_partition`) and single-network detection (`single_network_iff`) are proved below.  Label-independence of the
+structure id (`dist_iso`, `structId_iso_invariant`, `structIdStr_iso_invariant`) and its separating power at the level of the sorted
+key lists (`structId_separates_labels`) are proved at the end of the file.  Reduce/expand losslessness is NOT proved (tied by
+exhaustive correspondence only — see DESIGN.md, C16: partial); that the concatenated STRING separates label multisets is not proved
+either (names are free text). -/
 namespace Votca.C16
 
 /-- when the queue has run empty every reachable vertex carries its shortest-path hop count,
@@ -237,5 +241,198 @@ theorem single_network_iff (adj : Nat → List Nat) (n fuel : Nat) (hn : 0 < n) 
 /-! non-vacuity: the demo graph with an isolated vertex 6 — two components; hypotheses hold -/
 example : components demoAdj 7 12 = [[0, 1, 2, 3, 4, 5], [6]] ∧ (∀ v, v < 7 → ∀ x ∈ demoAdj v, x < 7) ∧
     (∀ u, u < 7 → ∀ v ∈ demoAdj u, u ∈ demoAdj v) := by decide
+
+/-! ## structure id: independent of the numbering and of every insertion order
+
+`π` renumbers the vertices (injective on them); the second graph lists the renumbered vertices in ANY order (`verts'` is a permutation
+of `verts.map π`) and the renumbered neighbours of every vertex in ANY order (`adj' (π v)` is a permutation of `(adj v).map π`);
+labels travel with the vertices. -/
+
+/-- distance labels are carried by a renumbering: the label of `π v` from `π s` in the renumbered graph is the label of `v` from `s` -/
+theorem dist_iso (adj adj' : Nat → List Nat) (π : Nat → Nat) (verts verts' : List Nat) (s k : Nat) (hnd : verts.Nodup)
+    (hclosed : ∀ v ∈ verts, ∀ x ∈ adj v, x ∈ verts) (hs : s ∈ verts)
+    (hinj : ∀ a ∈ verts, ∀ b ∈ verts, π a = π b → a = b)
+    (hverts : verts'.Perm (verts.map π))
+    (hadj : ∀ v ∈ verts, (adj' (π v)).Perm ((adj v).map π))
+    (hk : degSum adj verts ≤ k) (v : Nat) (hv : v ∈ verts) :
+    (run adj' k (init adj' (π s))).dist (π v) = (run adj k (init adj s)).dist v := by
+  have hnd' : verts'.Nodup := hverts.nodup_iff.mpr (List.Nodup.map_on hinj hnd)
+  have hmem' : ∀ x, x ∈ verts' ↔ ∃ a ∈ verts, π a = x := by
+    intro x; rw [hverts.mem_iff]; exact List.mem_map
+  have hclosed' : ∀ v' ∈ verts', ∀ x ∈ adj' v', x ∈ verts' := by
+    intro v' hv' x hx
+    obtain ⟨a, ha, rfl⟩ := (hmem' v').mp hv'
+    have : x ∈ (adj a).map π := (hadj a ha).mem_iff.mp hx
+    obtain ⟨y, hy, rfl⟩ := List.mem_map.mp this
+    exact (hmem' _).mpr ⟨y, hclosed a ha y hy, rfl⟩
+  have hs' : π s ∈ verts' := (hmem' _).mpr ⟨s, hs, rfl⟩
+  have hdeg : degSum adj' verts' = degSum adj verts := by
+    unfold degSum
+    rw [(hverts.map _).sum_nat, List.map_map]
+    congr 1
+    apply List.map_congr_left
+    intro a ha
+    simp [(hadj a ha).length_eq]
+  obtain ⟨a1, a2⟩ := bfs_dist_finite adj verts s k hnd hclosed hs hk v
+  obtain ⟨b1, b2⟩ := bfs_dist_finite adj' verts' (π s) k hnd' hclosed' hs' (by omega) (π v)
+  have fwd : ∀ j, Walk adj j s v → Walk adj' j (π s) (π v) := fun j h => Walk.map_iso hclosed hadj hs h
+  have bwd : ∀ j, Walk adj' j (π s) (π v) → Walk adj j s v := by
+    intro j h
+    obtain ⟨b, hb, hbe, hw⟩ := Walk.unmap_iso hclosed hadj h s hs rfl
+    rw [hinj v hv b hb hbe]; exact hw
+  cases h1 : (run adj k (init adj s)).dist v with
+  | none =>
+    cases h2 : (run adj' k (init adj' (π s))).dist (π v) with
+    | none => rfl
+    | some d2 =>
+      obtain ⟨d, hd, _, _⟩ := a1 d2 (bwd _ (b2 d2 h2))
+      rw [h1] at hd; cases hd
+  | some d1 =>
+    obtain ⟨d2, hd2, hle, _⟩ := b1 d1 (fwd _ (a2 d1 h1))
+    obtain ⟨d1', hd1', hle', _⟩ := a1 d2 (bwd _ (b2 d2 hd2))
+    rw [h1] at hd1'; cases hd1'
+    rw [hd2]; congr 1; omega
+
+/-- the keys of one labelling are the same multiset in both numberings -/
+theorem idKeys_iso {β : Type} (key : String → Option Nat → β) (adj adj' : Nat → List Nat) (π : Nat → Nat) (verts verts' : List Nat)
+    (lab lab' : Nat → String) (s k : Nat) (hnd : verts.Nodup)
+    (hclosed : ∀ v ∈ verts, ∀ x ∈ adj v, x ∈ verts) (hs : s ∈ verts)
+    (hinj : ∀ a ∈ verts, ∀ b ∈ verts, π a = π b → a = b)
+    (hverts : verts'.Perm (verts.map π))
+    (hadj : ∀ v ∈ verts, (adj' (π v)).Perm ((adj v).map π))
+    (hlab : ∀ v ∈ verts, lab' (π v) = lab v)
+    (hk : degSum adj verts ≤ k) :
+    (idKeys key adj' verts' lab' k (π s)).Perm (idKeys key adj verts lab k s) := by
+  unfold idKeys
+  refine (hverts.map _).trans ?_
+  rw [List.map_map]
+  apply List.Perm.of_eq
+  apply List.map_congr_left
+  intro v hv
+  simp only [Function.comp]
+  rw [hlab v hv, dist_iso adj adj' π verts verts' s k hnd hclosed hs hinj hverts hadj hk v hv]
+
+/-- **the structure id does not depend on the numbering of the vertices, on the order in which they were inserted, or on the order of
+the adjacency lists** — for any key, any total transitive antisymmetric comparison used by the sort, any concatenation and any choice
+function whose fold does not depend on the order (the maximum of a linear order is one) -/
+theorem structId_iso_invariant {β γ : Type} (key : String → Option Nat → β) (le : β → β → Bool) (cat : List β → γ)
+    (pick : γ → γ → γ) (e : γ)
+    (trans : ∀ a b c : β, le a b → le b c → le a c) (total : ∀ a b : β, le a b || le b a)
+    (antisymm : ∀ a b : β, le a b → le b a → a = b)
+    (hpick : ∀ a b c : γ, pick (pick a b) c = pick (pick a c) b)
+    (adj adj' : Nat → List Nat) (π : Nat → Nat) (verts verts' : List Nat) (lab lab' : Nat → String) (k : Nat) (hnd : verts.Nodup)
+    (hclosed : ∀ v ∈ verts, ∀ x ∈ adj v, x ∈ verts)
+    (hinj : ∀ a ∈ verts, ∀ b ∈ verts, π a = π b → a = b)
+    (hverts : verts'.Perm (verts.map π))
+    (hadj : ∀ v ∈ verts, (adj' (π v)).Perm ((adj v).map π))
+    (hlab : ∀ v ∈ verts, lab' (π v) = lab v)
+    (hk : degSum adj verts ≤ k) :
+    structId key le cat pick e adj' verts' lab' k = structId key le cat pick e adj verts lab k := by
+  unfold structId
+  have hst := starts_iso hverts hadj
+  rw [List.Perm.foldl_eq' (hst.map _) (fun x _ y _ z => hpick z x y), List.map_map]
+  congr 1
+  apply List.map_congr_left
+  intro s hs
+  simp only [Function.comp]
+  congr 1
+  exact mergeSort_eq_of_perm le trans total antisymm
+    (idKeys_iso key adj adj' π verts verts' lab lab' s k hnd hclosed (mem_starts hs) hinj hverts hadj hlab hk)
+
+theorem pickStr_right_comm (a b c : String) : pickStr (pickStr a b) c = pickStr (pickStr a c) b := by
+  have h : ∀ x y : String, pickStr x y = max x y := by
+    intro x y; unfold pickStr
+    rcases lt_or_ge x y with h | h
+    · rw [if_pos h, max_eq_right (le_of_lt h)]
+    · rw [if_neg (not_lt.mpr h), max_eq_left h]
+  rw [h, h, h, h, max_assoc, max_comm b c, ← max_assoc]
+
+/-- the instance the code uses: node strings `Dist<k>` + label, `std::sort` by string comparison, concatenation, largest string wins -/
+theorem structIdStr_iso_invariant (adj adj' : Nat → List Nat) (π : Nat → Nat) (verts verts' : List Nat) (lab lab' : Nat → String)
+    (k : Nat) (hnd : verts.Nodup)
+    (hclosed : ∀ v ∈ verts, ∀ x ∈ adj v, x ∈ verts)
+    (hinj : ∀ a ∈ verts, ∀ b ∈ verts, π a = π b → a = b)
+    (hverts : verts'.Perm (verts.map π))
+    (hadj : ∀ v ∈ verts, (adj' (π v)).Perm ((adj v).map π))
+    (hlab : ∀ v ∈ verts, lab' (π v) = lab v)
+    (hk : degSum adj verts ≤ k) :
+    structIdStr adj' verts' lab' k = structIdStr adj verts lab k := by
+  unfold structIdStr
+  apply structId_iso_invariant nodeKey _ String.join pickStr "" _ _ _ pickStr_right_comm adj adj' π verts verts' lab lab' k hnd hclosed
+    hinj hverts hadj hlab hk
+  · intro a b c h1 h2; simp only [decide_eq_true_eq] at *; exact le_trans h1 h2
+  · intro a b; simp only [Bool.or_eq_true, decide_eq_true_eq]; exact le_total a b
+  · intro a b h1 h2; simp only [decide_eq_true_eq] at *; exact le_antisymm h1 h2
+
+/-- **separation, at the level of the sorted key lists**: when the key remembers the label (`labOf (key l d) = l`), the concatenation is
+injective and never the initial value on a non-empty list, and the choice returns one of its arguments and prefers anything to the
+initial value, two structures with the same id — one of them non-empty — carry the same multiset of labels.
+(For the string instance the concatenation is NOT injective for arbitrary bead names; this clause is tied by correspondence there.) -/
+theorem structId_separates_labels {β γ : Type} (key : String → Option Nat → β) (labOf : β → String) (le : β → β → Bool)
+    (cat : List β → γ) (pick : γ → γ → γ) (e : γ)
+    (hkey : ∀ l d, labOf (key l d) = l) (hcat : ∀ a b, cat a = cat b → a = b) (he : ∀ l, l ≠ [] → cat l ≠ e)
+    (hpick : ∀ a b, pick a b = a ∨ pick a b = b) (hpe : ∀ x, x ≠ e → pick e x ≠ e)
+    (adj adj' : Nat → List Nat) (verts verts' : List Nat) (lab lab' : Nat → String) (k k' : Nat)
+    (hne : verts ≠ [])
+    (hid : structId key le cat pick e adj' verts' lab' k' = structId key le cat pick e adj verts lab k) :
+    (verts'.map lab').Perm (verts.map lab) := by
+  have hlabs : ∀ (adj : Nat → List Nat) (verts : List Nat) (lab : Nat → String) (k s : Nat),
+      (((idKeys key adj verts lab k s).mergeSort le).map labOf).Perm (verts.map lab) := by
+    intro adj verts lab k s
+    refine ((List.mergeSort_perm _ le).map labOf).trans ?_
+    unfold idKeys
+    rw [List.map_map]
+    apply List.Perm.of_eq
+    apply List.map_congr_left
+    intro v _; simp [hkey]
+  -- the id of a non-empty structure is the id of one of its labellings, and is not the initial value
+  have hshape : ∀ (adj : Nat → List Nat) (verts : List Nat) (lab : Nat → String) (k : Nat), verts ≠ [] →
+      (∃ s, structId key le cat pick e adj verts lab k = cat ((idKeys key adj verts lab k s).mergeSort le)) ∧
+      structId key le cat pick e adj verts lab k ≠ e := by
+    intro adj verts lab k hne
+    unfold structId
+    have keysne : ∀ s, (idKeys key adj verts lab k s).mergeSort le ≠ [] := by
+      intro s h
+      have := (List.mergeSort_perm (idKeys key adj verts lab k s) le).length_eq
+      rw [h] at this
+      unfold idKeys at this
+      simp only [List.length_nil, List.length_map] at this
+      exact hne (List.length_eq_zero_iff.mp this.symm)
+    have hl : (starts adj verts).map (fun s => cat ((idKeys key adj verts lab k s).mergeSort le)) ≠ [] := by
+      intro h; exact starts_ne_nil adj verts hne (List.map_eq_nil_iff.mp h)
+    have hall : ∀ x ∈ (starts adj verts).map (fun s => cat ((idKeys key adj verts lab k s).mergeSort le)), x ≠ e := by
+      intro x hx
+      obtain ⟨s, _, rfl⟩ := List.mem_map.mp hx
+      exact he _ (keysne s)
+    obtain ⟨hm, hn⟩ := foldl_pick_mem_of_ne pick e hpick hpe _ hl hall
+    obtain ⟨s, _, hs⟩ := List.mem_map.mp hm
+    exact ⟨⟨s, hs.symm⟩, hn⟩
+  obtain ⟨⟨s, hs⟩, hnz⟩ := hshape adj verts lab k hne
+  have hne' : verts' ≠ [] := by
+    intro h
+    apply hnz
+    rw [← hid, h]
+    simp [structId, starts]
+  obtain ⟨⟨s', hs'⟩, _⟩ := hshape adj' verts' lab' k' hne'
+  rw [hs, hs'] at hid
+  have hEq := hcat _ _ hid
+  exact ((hlabs adj' verts' lab' k' s').symm.trans (by rw [hEq])).trans (hlabs adj verts lab k s)
+
+/-! non-vacuity: the hypotheses of the invariance theorem are met by the demo graph renumbered by `v ↦ 10 − v` with reversed vertex and
+adjacency lists, and the two string ids coincide; an instance of the separation hypotheses (keys are pairs, concatenation is the
+identity, the longer list wins) -/
+def demoAdj' : Nat → List Nat := fun w => if w ≤ 10 then ((demoAdj (10 - w)).map fun x => 10 - x).reverse else []
+def demoLab : Nat → String := fun v => if v % 2 = 0 then "Mass12NameC" else "Mass1NameH"
+def demoLab' : Nat → String := fun w => demoLab (10 - w)
+
+example : structIdStr demoAdj' ((List.range 7).map fun v => 10 - v).reverse demoLab' 12 = structIdStr demoAdj (List.range 7) demoLab 12 := by
+  apply structIdStr_iso_invariant demoAdj demoAdj' (fun v => 10 - v) (List.range 7) _ demoLab demoLab' 12
+  · decide
+  · decide
+  · decide
+  · exact List.reverse_perm _
+  · decide
+  · decide
+  · decide
 
 end Votca.C16
